@@ -73,7 +73,7 @@ Definition scion_canon (fx : bool) (paylen : N) (h : scion) : scion :=
           (s_pathtype h') (s_dt h') (s_st h') (s_dstia h') (s_srcia h') (s_rawdst h') (s_rawsrc h')
           (path_canon (s_path h')).
 
-Definition scion_decode (data : bytes) : res (scion * bytes) :=
+Definition scion_decode_gen (pd : N -> bytes -> res (path * bytes)) (data : bytes) : res (scion * bytes) :=
   if Nat.ltb (length data) cmn_hdr_len then Err else
   '(line, r) <- wordP 4 data ;;
   '(nh, r) <- wordP 1 r ;;
@@ -97,9 +97,14 @@ Definition scion_decode (data : bytes) : res (scion * bytes) :=
   let plen := (hdr_bytes - cmn_hdr_len - alen)%nat in
   if Nat.ltb (length data) (cmn_hdr_len + alen + plen) then Err else
   '(pb, payload) <- takeP plen r ;;
-  '(p, _) <- path_decode pt pb ;;
+  '(p, _) <- pd pt pb ;;
   Ok (mkScion (line / 2 ^ 28) ((line / 2 ^ 20) mod 256) (line mod 2 ^ 20) nh hl pl pt dt st
               dia sia rd rs p, payload).
+
+(** fresh layer (strict decoding): unknown path types are rejected *)
+Definition scion_decode : bytes -> res (scion * bytes) := scion_decode_gen path_decode.
+(** layer on which RecyclePaths() was called (router, dispatcher) *)
+Definition scion_decode_r : bytes -> res (scion * bytes) := scion_decode_gen path_decode_r.
 
 Definition wf_scion_nolen (h : scion) : Prop :=
   s_version h < 16 /\ s_tc h < 256 /\ s_flowid h < 2 ^ 20 /\ s_nexthdr h < 256 /\
@@ -149,6 +154,22 @@ Definition scion_eqb (a b : scion) : bool :=
   (s_dstia a =? s_dstia b) && (s_srcia a =? s_srcia b) &&
   bytes_eqb (s_rawdst a) (s_rawdst b) && bytes_eqb (s_rawsrc a) (s_rawsrc b) &&
   path_eqb (s_path a) (s_path b).
+
+(** a header carrying a fully decoded path ([scion.Decoded]) is serialized like the header carrying
+    the raw form of that path (Decoded.ToRaw); decoding always yields the raw form *)
+Definition to_raw (d : dec_path) : path :=
+  match dec_encode d with
+  | Ok e => PScion (mkRaw (dp_base d) e)
+  | _ => PDecoded d
+  end.
+
+Definition scion_undecoded (h : scion) : scion :=
+  match s_path h with
+  | PDecoded d =>
+    mkScion (s_version h) (s_tc h) (s_flowid h) (s_nexthdr h) (s_hdrlen h) (s_paylen h)
+            (s_pathtype h) (s_dt h) (s_st h) (s_dstia h) (s_srcia h) (s_rawdst h) (s_rawsrc h) (to_raw d)
+  | _ => h
+  end.
 
 (** ------------------------------------------------------------ ParseAddr / PackAddr *)
 Inductive host :=
